@@ -60,6 +60,9 @@ var cseqPool = map[string]string{
 	"V": `{"$ref":"d3.json#/definitions/V"}`,
 	// a document that fails to decode
 	"X": `{"$ref":"bad.json#/definitions/T"}`,
+	// a document the loader refuses (whole-document reference, and a pointer into it)
+	"R":  `{"$ref":"refused.json"}`,
+	"R2": `{"properties":{"r":{"$ref":"refused.json#/definitions/T"}}}`,
 	// nothing to resolve
 	"E": `{"type":"string"}`,
 }
